@@ -413,7 +413,8 @@ impl TCheck for C07 {
         let mib_pair = work % 8 == 2;
         let above_16mib = work == 5;
         // (thorough tier) one compressed content above 256 MiB, two schedules
-        let above_256mib = tier == Tier::Thorough && work == 7;
+        let above_256mib = work == 7;
+        let _ = tier;
         if above_256mib {
             let pack = logical.contents.first().map(|c| c.pack).unwrap_or(1);
             let len = (260usize << 20) + rng.range(1, 1 << 20) as usize;
